@@ -481,6 +481,16 @@ func (vc *VC) loopHead(b *ssa.BasicBlock, n int, h *Heap, reach string) *Heap {
 	for i, cl := range ls.Invariants {
 		s, err := env.evalGoal(cl.Expr)
 		if err != nil {
+			if len(cl.Tags) == 0 && !cl.Pinned {
+				// an untagged invariant is a proof hint, not a claim: when it no longer fits the code (a local
+				// was renamed or retyped) it is dropped, and what depended on it fails by name if it matters
+				if vc.droppedInv == nil {
+					vc.droppedInv = map[*Clause]bool{}
+				}
+				vc.droppedInv[cl] = true
+				vc.notes = append(vc.notes, fmt.Sprintf("NOTE: %s: loop %d invariant %s no longer fits the code and was dropped (%v)", vc.key, n, vc.contract.clauseName(cl, i), err))
+				continue
+			}
 			panic(evalError{fmt.Sprintf("loop %d invariant %s: %v", n, vc.contract.clauseName(cl, i), err)})
 		}
 		vc.oblige("invariant", fmt.Sprintf("loop%d.%s.entry", n, vc.contract.clauseName(cl, i)), cl.Tags, reach, s, cl.Src)
@@ -549,12 +559,16 @@ func (vc *VC) loopHead(b *ssa.BasicBlock, n int, h *Heap, reach string) *Heap {
 	}
 	env2 := vc.loopEnv(b, b, hh, nil)
 	for i, cl := range ls.Invariants {
+		if vc.droppedInv[cl] {
+			continue
+		}
 		s, err := env2.evalAssume(cl.Expr)
 		if err != nil {
 			panic(evalError{fmt.Sprintf("loop %d invariant %s: %v", n, vc.contract.clauseName(cl, i), err)})
 		}
 		vc.assume(reach, s)
 	}
+	vc.cover(fmt.Sprintf("loop%d.head", n), reach)
 	return hh
 }
 
@@ -582,6 +596,9 @@ func (vc *VC) backEdge(p, hdr *ssa.BasicBlock, h *Heap, reach string) {
 		sfx = fmt.Sprintf(".%d", k)
 	}
 	for i, cl := range ls.Invariants {
+		if vc.droppedInv[cl] {
+			continue
+		}
 		s, err := env.evalGoal(cl.Expr)
 		if err != nil {
 			panic(evalError{fmt.Sprintf("loop %d invariant: %v", n, err)})
@@ -643,6 +660,9 @@ func (vc *VC) loopMods(hdr *ssa.BasicBlock) (map[string]bool, map[string]bool, b
 	mods := map[string]bool{}
 	old := map[string]bool{}
 	all := false
+	// "fresh" is relative to the loop: only objects allocated inside the body do not exist at its head
+	freshScope = vc.loopBody[hdr]
+	defer func() { freshScope = nil }()
 	for b := range vc.loopBody[hdr] {
 		for _, in := range b.Instrs {
 			ms, a := vc.prog.instrMods(vc, in)
@@ -984,6 +1004,7 @@ func (vc *VC) execInstr(b *ssa.BasicBlock, in ssa.Instruction, h *Heap, reach st
 		if vc.lastCallReach != "" {
 			reach = vc.lastCallReach // execution continues only if the callee did not panic
 		}
+		vc.cover(fmt.Sprintf("aftercall.b%d.%d", b.Index, vc.counter("cover.call")), reach)
 		sig := x.Common().Signature()
 		switch sig.Results().Len() {
 		case 0:
@@ -1578,6 +1599,7 @@ func (vc *VC) checkReturn(b *ssa.BasicBlock, results []Term, h *Heap, reach stri
 		k := vc.counter("return")
 		sfx = fmt.Sprintf("@ret%d", k)
 	}
+	vc.cover("return"+sfx, reach)
 	env := vc.retEnv(results, h)
 	if c != nil && c.Trusted != "" {
 		vc.trusted[vc.key+" (trusted contract): "+c.Trusted] = true
@@ -1648,7 +1670,7 @@ func (vc *VC) frameGoals(c *Contract, h *Heap) [][2]string {
 	a0 := vc.get(vc.entryHeap, "$alloc")
 	var out [][2]string
 	for _, comp := range sortedKeys(vc.compSortSet()) {
-		if comp == "$alloc" || strings.HasPrefix(comp, "Gcalls_") || strings.HasPrefix(comp, "Ghash_") || strings.HasPrefix(comp, "Gres_") || strings.HasPrefix(comp, "Garg_") || strings.HasPrefix(comp, "Gcnt_") || comp == "Gerr_n" {
+		if comp == "$alloc" || isGhostComp(comp) {
 			continue // ghost state is outside every frame
 		}
 		cur := vc.get(h, comp)
@@ -1871,4 +1893,10 @@ func (vc *VC) inheritSteps(n int, inh *Inherit, env *Env, reach, sfx string) {
 		o := vc.oblige("step", fmt.Sprintf("loop%d.inherit.%s.%s%s", n, short, cc.clauseName(cl, i), sfx), cl.Tags, reach, implies(cond, s), "delegated to "+inh.Callee+": "+cl.Src)
 		o.Pinned = cl.Pinned
 	}
+}
+
+// ghost components (call log, counters, recorded results) are outside every frame: a modifies clause
+// neither allows nor forbids changing them, on the proving side and on the using side alike
+func isGhostComp(comp string) bool {
+	return strings.HasPrefix(comp, "Gcalls_") || strings.HasPrefix(comp, "Ghash_") || strings.HasPrefix(comp, "Gres_") || strings.HasPrefix(comp, "Garg_") || strings.HasPrefix(comp, "Gcnt_") || comp == "Gerr_n"
 }
